@@ -14,6 +14,25 @@
     This file: `Rectangle`, `Point (+|-) Size`.  C08/Shapes.lean: `Circle`, `Ellipse`,
     `EllipseContains`.  C08/Lines.lean: Bresenham, thick-line threshold, intersections, miter.
     C08/Data.lean: `ImageRaw`, `Framebuffer`, raw `load`/`store`, text metrics.
+    C08/Triangle.lean: `Triangle::{bounding_box, area_doubled, contains, sorted_clockwise,
+    scanline_intersection, translate}` (with the lazily consumed `Line::points()` and
+    `Scanline::{extend, bresenham_intersection}` below them).
+    C08/RRect.lean: `CornerRadii::confine` (total for all `u32`), `EllipseQuadrant`,
+    `RoundedRectangle::{contains, offset, translate}`, `RoundedRectangleContains`, the `Scanlines`
+    iterator and the `fill_range` search of `StyledScanlines` (any `u32` radii).
+    C08/Sector.lean: `PlaneSector::{contains, point_type}`, `DistanceIterator`, `Sector` / `Arc`
+    (`contains`, `offset`, `points()`), the styled iterators of both (thresholds, bevel line), for
+    any plane sector with normals within +-1024; for the `fixed_point` build also
+    `PlaneSector::new` and the bevel selection on I16F16 bits (total for start angles within
+    about +-9600 degrees and every sweep).
+    C08/Scanlines.lean: `Scanline::{extend, bresenham_intersection, touches, try_extend,
+    to_rectangle, draw}`, `StyledScanline` draws, the `Scanlines` / `StyledScanlines` iterators
+    of circles and ellipses, and the thick polyline / triangle machinery above the joins (cap
+    midpoints, `ThickSegment::{intersection, edges_bounding_box}`, the bounding-box fold), with
+    the bound that every corner of a display-scale join is within 2^27 + 4096.
+    C08/Glyphs.lean: `MonoFont::glyph`, the guard and skips of `ImageRaw::draw_sub_image`,
+    `line_elements`, decoration rectangles, `MonoTextStyle::{draw_string, draw_whitespace}`;
+    all 292 built-in fonts are inside the domain.
   * `old_*` witness theorems: the integer widths of the tree before the `fix:` commits did not
     suffice at display scale (why each widening was needed).
   * C08/Reject.lean: rejection without panic (corollaries of C09, C10, C11 + `checked_mul`,
@@ -21,8 +40,8 @@
 
   Not proved (what Lean cannot carry):
   -- [V] no heap allocation in any constructor, query or draw: carried by correspondence + oracle only (counting global allocator, streams scale.shape/text/image/reject)
-  -- [V] no panic in code that has no checked model (thick polyline / triangle scanline machinery, rounded rectangles, arcs and sectors, f32 trigonometry, glyph rendering, styled scanline drawing): carried by correspondence + oracle only
-  -- [V] the `fixed_point` feature build (`I16F16::from_num` range): carried by correspondence + oracle only (thorough tier)
+  -- [V] no panic in code that has no checked model (f32 trigonometry of the default build (`PlaneSector::new`, bevel selection: micromath), the point steps of `ParallelsIterator` inside `Line::extents`, and the slicing / control flow of `ThickSegmentIter`, `ClosedThickSegmentIter`, `ScanlineIntersections` around the checked join and segment kernels): carried by correspondence + oracle only
+  -- [V] the `fixed_point` feature build: the f32 -> I16F16 conversions of angles (`Angle::from_degrees`, `I16F16::from_num` range; the I16F16 pipeline behind them is proved total in C08/Sector.lean): carried by correspondence + oracle only (thorough tier)
   -- [V] termination of the real iterators within the step bounds of C08/Termination.lean (proved for the models): carried by correspondence + oracle only (iteration budgets of the scale.* streams)
   -- [V] the checked kernels transcribe the operation sequence and integer widths of the Rust source: carried by correspondence only (streams scale.chk.*: `panic` exactly where the checked model says `none`, also far outside the display scale)
 -/
